@@ -1070,6 +1070,7 @@ def sampling_function(func_or_arr, domain, out_dtype=None):
         # Assume scalar float out dtype for single function
         if out_dtype is None:
             out_dtype = np.dtype('float64')
+            val_shape = ()
 
         # Got a (single) function, possibly need to vectorize
         func = func_or_arr
